@@ -46,6 +46,7 @@ type Val struct {
 	Expr    ast.Expr
 	Pkg     *packages.Package
 	Ptr     bool
+	Local   bool // struct value created inside a fold (fields may be assigned there)
 }
 
 func (v *Val) String() string {
